@@ -547,7 +547,10 @@ def run(tier, seed):
                                  "C07_world_check_sound": "U", "C07_api_built_reloads": "U (hypothesis: the boolean checker world_checkb answers true)",
                                  "C07_api_built_reloads_example": "F (non-vacuity: checker evaluates to true on a history-built world over the real tables)",
                                  "C07_ordered_short_first": "U", "C07_named_nonseq_real": "F",
-                                 "C07_unique_name_too_long_refuted": "F-witness", "C07_unique_name_valid_when_short": "U"}})
+                                 "C07_unique_name_too_long_refuted": "F-witness", "C07_unique_name_valid_when_short": "U",
+                                 "C07_named_agree_real": "F (5080 datatypes x 21 versions, 4 shards)", "C07_listing_exact": "U (table fact named_agree_b as hypothesis)",
+                                 "C07_listing_exact_real": "F+U (no table hypothesis; file version among the 21 AUTOSAR versions)",
+                                 "C07_version_dependent_named_real": "F"}})
 
 
 def replay(path):
